@@ -164,6 +164,53 @@ func chanQueueScenario(seed int64, id int) []map[string]any {
 	return append([]map[string]any{}, log.ev...)
 }
 
+// chanQueueBurst: nobody pulls, eight producers are released together (spin barrier) and race for the last free slots of a
+// queue of capacity 1 or 2: exactly `capacity` pushes are accepted, all others are REFUSED - none may block.
+func chanQueueBurst(seed int64, id int) (events []map[string]any, hung bool) {
+	rng := newRand(seed, fmt.Sprint("chanqburst", id))
+	capN := 1 + rng.Intn(2)
+	const np = 8
+	q := queue.NewChannelQueue[int](capN)
+	log := &linLog{}
+	log.add(map[string]any{"k": "reset", "cap": capN, "scn": id})
+	var ready atomic.Int32
+	var all sync.WaitGroup
+	var accepted atomic.Int32
+	for p := 1; p <= np; p++ {
+		p := p
+		all.Add(1)
+		go func() {
+			defer all.Done()
+			defer guard("c20b")
+			ready.Add(1)
+			for ready.Load() < np {
+			}
+			v := p*100 + 1
+			log.add(map[string]any{"k": "start", "g": p, "op": "push", "v": v})
+			ok := q.Push(v)
+			log.add(map[string]any{"k": "end", "g": p, "ok": ok, "r": 0})
+			if ok {
+				accepted.Add(1)
+			}
+		}()
+	}
+	done := make(chan struct{})
+	go func() { all.Wait(); close(done) }()
+	select {
+	case <-done:
+		log.add(map[string]any{"k": "start", "g": 0, "op": "close", "v": 0})
+		q.Close()
+		log.add(map[string]any{"k": "end", "g": 0, "ok": true, "r": 0})
+		log.add(map[string]any{"k": "quiesce", "left": int(accepted.Load())})
+	case <-time.After(4 * time.Second):
+		log.add(map[string]any{"k": "hang"}) // no action of the specification matches: rejected
+		hung = true
+	}
+	log.mu.Lock()
+	defer log.mu.Unlock()
+	return append([]map[string]any{}, log.ev...), hung
+}
+
 func runChanQueue(env *vk.Env) {
 	if env.MustSpec(vk.TLCRun{Name: "S ChanQueue", Module: "ChanQueue", Cfg: "ChanQueue_MC.cfg", Workers: 4}) == nil {
 		return
@@ -173,8 +220,16 @@ func runChanQueue(env *vk.Env) {
 	for i := 0; i < n; i++ {
 		scen = append(scen, chanQueueScenario(env.Seed, i))
 	}
+	for i := 0; i < env.Pick(400, 4000); i++ {
+		ev, hung := chanQueueBurst(env.Seed, 100000+i)
+		scen = append(scen, ev)
+		if hung {
+			break // one is enough (each costs the 4 s it waits)
+		}
+	}
 	judgeLin(env, "ChanQueue_Trace", "ChanQueue_Trace.cfg", "B ChannelQueue histories", "ChannelQueue", scen, "lin")
 	env.Distinct("chanqueue")
+	env.Distinct("chanqueue/burst-on-the-last-slot")
 }
 
 // ------------------------------------------------------------------ PlayerList
